@@ -138,6 +138,12 @@ def render_program(apps: List[App], variables: List[Var], w: int, init: str) -> 
                 stubs.append(f'    ;a{k}')
         lines.append(f'    {app.spec.macro} ' + ', '.join(args))
         lines.append(f'a{k}:')
+        if len(apps) > 1 and k % 3 == 1:
+            # reserved space in the MIDDLE of the code (a zeroed scratch area the program jumps over): library code sits on both
+            # sides of it, in one segment
+            lines.append(f'    ;rg{k}_end')
+            lines.append(f'rg{k}: reserve {2 * w * (1 + k % 5)}')
+            lines.append(f'rg{k}_end:')
     lines.append('    ;top')
     lines.extend(stubs)
     for var in variables:
